@@ -81,7 +81,8 @@ pub fn gen_ty(rng: &mut Rng, obf_classes: &[String], allow_void: bool, depth_ok:
         return Ty::Prim('V');
     }
     if depth_ok && r <= 2 {
-        let d = 1 + rng.below(3);
+        // now and then more dimensions than any narrow counter holds
+        let d = if rng.chance(1, 40) { *rng.pick(&[255usize, 256, 257, 300, 1000]) } else { 1 + rng.below(3) };
         return Ty::Arr(d, Box::new(gen_ty(rng, obf_classes, false, false)));
     }
     if r <= 5 {
@@ -262,5 +263,11 @@ pub fn single_edits(s: &str) -> Vec<String> {
 pub fn arbitrary_sig(rng: &mut Rng) -> String {
     const A: &[&str] = &["(", ")", "L", ";", "[", "I", "V", "J", "/", "é", "日", "a", "Z", ":", ".", " ", "\u{1F600}", "La/b;", "[[", "Lé;", ")V", "(L"];
     let n = rng.below(10);
-    (0..n).map(|_| *rng.pick(A)).collect()
+    let mut s: String = (0..n).map(|_| *rng.pick(A)).collect();
+    if rng.chance(1, 30) {
+        // hundreds of array dimensions in front of some token
+        let at = (0..=s.len()).filter(|i| s.is_char_boundary(*i)).nth(rng.below(s.chars().count() + 1)).unwrap_or(0);
+        s.insert_str(at, &"[".repeat(*rng.pick(&[255usize, 256, 257, 512, 70000])));
+    }
+    s
 }
